@@ -13,13 +13,25 @@ def afterClose (obs : List Obs) : Bool :=
   let tail := obs.dropWhile (fun o => !Obs.isTc o)
   Obs.countP Obs.isW tail == 0
 
+def ackOf (evs : List Event) (k : Nat) (unacked : Nat) : Nat :=
+  match evs[k]? with
+  | some (.ack n) => min n unacked
+  | some .ackAll => unacked
+  | _ => 0
+
+/-- bytes written and not acknowledged at the end of the history -/
+def pending (evs : List Event) : List Obs → (written acked : Nat) → Nat
+  | [], written, acked => written - acked
+  | .ev k :: l, written, acked => pending evs l written (acked + ackOf evs k (written - acked))
+  | .w b :: l, written, acked => pending evs l (written + b.length) acked
+  | _ :: l, written, acked => pending evs l written acked
+
 def holds (sc : Scenario) (obs : List Obs) : Bool :=
   Obs.countP Obs.isHp obs ≤ 1 && Obs.countP isRt obs ≤ 1 && afterClose obs &&
-  -- the transport is closed at most once and the shutdown is observed when all is acknowledged
+  -- the transport is closed at most once; the shutdown is observed once, and it is observed
+  -- whenever the library closed the transport and every written byte has been acknowledged
   Obs.countP Obs.isTc obs ≤ 1 && Obs.countP Obs.isDc obs ≤ 1 &&
-  (if Obs.countP Obs.isTc obs == 1 &&
-      (match sc.events.getLast? with | some .ackAll => true | _ => false) &&
-      !(sc.events.any fun e => match e with | .turn => true | _ => false)
+  (if Obs.countP Obs.isTc obs == 1 && pending sc.events obs 0 0 == 0
    then Obs.countP Obs.isDc obs == 1 else true)
 
 end Qhttp.C19
